@@ -275,7 +275,6 @@ def LogOK (s : State) : Op → Bool
   | .truncPropose forced _ => !forced
   | .truncBySize n => match s.nodes[n]? with | some x => !strands s x x.snapIdx | none => true
   | .restart n => match s.nodes[n]? with | some x => !(decide (x.snapIdx > 0) && strands s x x.snapIdx) | none => true
-  | .restartLate n => match s.nodes[n]? with | some x => !(decide (x.snapIdx > 0) && strands s x x.snapIdx) | none => true
   | .commit _ _ => decide (s.clog.length + 1 < maxU64)
   | _ => true
 
@@ -565,37 +564,11 @@ theorem logInv_restart {n : Nat} (h : LogInv s) (hok : LogOK s (.restart n) = tr
     · cases hs
   · cases hs
 
-theorem logInv_restartLate {n : Nat} (h : LogInv s) (hok : LogOK s (.restartLate n) = true)
-    (hs : doRestartLate s n = some s') : LogInv s' := by
-  unfold doRestartLate at hs
-  split at hs
-  · rename_i x hx
-    split at hs
-    · cases hs
-      obtain ⟨r1, r2, r3, r4, r5⟩ := restartNode_log s.clog s.bounds x
-      have e1 : (restartNodeLate s.clog s.bounds x).first = (restartNode s.clog s.bounds x).first := rfl
-      have e2 : (restartNodeLate s.clog s.bounds x).last = (restartNode s.clog s.bounds x).last := rfl
-      have e3 : (restartNodeLate s.clog s.bounds x).hsCommit = (restartNode s.clog s.bounds x).hsCommit := rfl
-      have e4 : (restartNodeLate s.clog s.bounds x).snapIdx = (restartNode s.clog s.bounds x).snapIdx := rfl
-      have e5 : (restartNodeLate s.clog s.bounds x).holes = (restartNode s.clog s.bounds x).holes := rfl
-      simp only [LogOK, hx] at hok
-      by_cases hsn : x.snapIdx > 0
-      · simp only [hsn, if_true] at r1
-        simp only [hsn, decide_true, Bool.true_and, Bool.not_eq_true'] at hok
-        exact h.dropBelow hx (i := x.snapIdx) (Nat.le_refl _) (e1.trans r1) (e2.trans r2) (e3.trans r3) (e4.trans r4)
-          (e5.trans r5) (not_strands hok)
-      · simp only [hsn, if_false] at r1
-        exact h.updateSame hx (e1.trans r1) (e2.trans r2) (e3.trans r3) (e4.trans r4) (e5.trans r5)
-    · cases hs
-  · cases hs
+theorem logInv_restartLate {n : Nat} (_h : LogInv s) (hs : doRestartLate s n = some s') : LogInv s' := by
+  simp [doRestartLate, commitLoopAfterReplay] at hs
 
-theorem logInv_replayLate {n : Nat} (h : LogInv s) (hs : doReplayLate s n = some s') : LogInv s' := by
-  unfold doReplayLate at hs
-  split at hs
-  · split at hs
-    · cases hs; rename_i x hx _; exact h.updateSame hx rfl rfl rfl rfl rfl
-    · cases hs
-  · cases hs
+theorem logInv_replayLate {n : Nat} (_h : LogInv s) (hs : doReplayLate s n = some s') : LogInv s' := by
+  simp [doReplayLate, commitLoopAfterReplay] at hs
 
 theorem msOK_spec {l : Nat} {lx : Node} {ms : List (Nat × Nat)} (h : msOK s l lx ms = true) :
     ∀ (m : Nat) (y : Node), s.nodes[m]? = some y → ∃ p ∈ ms, p.1 = m ∧ p.2 ≤ y.last := by
@@ -780,7 +753,7 @@ theorem logInv_step {o : Op} (h : LogInv s) (hok : LogOK s o = true) (hs : step 
   · exact logInv_truncBySize h hok hs
   · exact logInv_kill h hs
   · exact logInv_restart h hok hs
-  · exact logInv_restartLate h hok hs
+  · exact logInv_restartLate h hs
   · exact logInv_replayLate h hs
   · exact logInv_raftLead h hs
   · exact logInv_metaDown h hs
